@@ -52,3 +52,9 @@ C("C10",
   "Trusted: the naive tree and the Hasher implementations (C11). A mutant can only be accepted legitimately through a hash collision.",
   "exhaustive (depth<=4) + sampled differential monitor with mutation-based negative oracle",
   "DESIGN.md §5 C10")
+
+C("C19",
+  "Random histories (1..64 operations: reseed, draw of base/quadratic/cubic elements, draw_integers with 1..255 values over domains 2^1..2^32 and boundary nonces, check_leading_zeros; seeds of 0..20 elements) are applied in lock-step to the real coin, a second instance and an executable coin model built on the Hasher API; every output is compared, drawn elements are checked canonical, counts/ranges of integers are asserted. Histories differing in exactly one datum must change the next >= 62-bit draw; check_leading_zeros must be side-effect free; the proof-of-work measure must be the trailing-zero count of merge_with_int(seed, nonce), the digest from which the query positions are then drawn. All six hashers with every field they support.",
+  "Trusted: the coin model (15 lines) and the hashers (C11). 'Number of earlier draws' is only required to matter where rejection sampling cannot skip (see DESIGN.md false-alarm note).",
+  "history + executable-model lock-step monitor, pairwise-history difference oracle",
+  "DESIGN.md §5 C19")
